@@ -686,7 +686,7 @@ func (x *Run) enterLoopHeader(fr *Frame, from, to *ssa.BasicBlock, st *State, lp
 		}
 		if ann != nil && ann.Body != nil {
 			ba := &LoopAnn{Inv: ann.Body, Args: ann.BodyArgs}
-			x.checkLoopInv(fr, st, lp, ba, "iteration")
+			x.checkLoopInvExtra(fr, st, lp, ba, "iteration", fr.loopHead[to])
 		}
 		return nil
 	}
@@ -764,6 +764,25 @@ func (x *Run) enterLoopHeader(fr *Frame, from, to *ssa.BasicBlock, st *State, lp
 	}
 	if ann != nil && ann.Inv != nil {
 		x.assumeLoopInv(fr, st, lp, ann)
+	}
+	if ann != nil && len(ann.Heads) > 0 {
+		// values at the start of the (arbitrary) iteration, for the body check
+		var hv []Val
+		for _, hf := range ann.Heads {
+			ha := &LoopAnn{Inv: hf, Args: ann.BodyArgs}
+			if args, ok := x.loopInvArgs(fr, st, ha); ok {
+				rt := hf.Signature.Results().At(0).Type()
+				t := x.evalPure(fr, st, hf, args, nil)
+				// name the value: the heap it was read from changes during the iteration
+				c := x.d.fresh("head_"+hf.Name(), x.d.sortOf(rt))
+				st.assume(eq(c, t))
+				hv = append(hv, Val{T: c, S: x.d.sortOf(rt), Ty: rt})
+			}
+		}
+		if fr.loopHead == nil {
+			fr.loopHead = map[*ssa.BasicBlock][]Val{}
+		}
+		fr.loopHead[to] = hv
 	}
 	fr.cut[to] = true
 	st.events = append(st.events, Event{Name: fmt.Sprintf("loop:%s#%d", fr.fn.String(), lp.ordinal)})
@@ -874,10 +893,15 @@ func (x *Run) cellNameOf(v Val) string {
 }
 
 func (x *Run) checkLoopInv(fr *Frame, st *State, lp *loop, ann *LoopAnn, phase string) {
+	x.checkLoopInvExtra(fr, st, lp, ann, phase, nil)
+}
+
+func (x *Run) checkLoopInvExtra(fr *Frame, st *State, lp *loop, ann *LoopAnn, phase string, extra []Val) {
 	args, ok := x.loopInvArgs(fr, st, ann)
 	if !ok {
 		return
 	}
+	args = append(args, extra...)
 	// quantified trailing params: fresh constants (proving a forall)
 	for i := len(args); i < ann.Inv.Signature.Params().Len(); i++ {
 		args = append(args, x.freshVal(st, "q", ann.Inv.Signature.Params().At(i).Type()))
